@@ -37,6 +37,23 @@ pub fn run(cx: &mut Ctx) {
         check_prog_x(cx, &p, &SourceSpec::Vec, Terminal::FailFast, &[Mode::Seq, Mode::Par(2), Mode::Par(n.max(1))], &o);
     }
 
+    /* ---- round 5: element-wise programs over LAWFUL user sources, the shardless one included ----
+       `SplitPol::Chunks` on an empty payload answers `split` with ZERO partitions (what a streamed file source does
+       for an empty file): the parallel engine must still return the sequential answer (no rows, no error). */
+    {
+        let specs = crate::c01_x::lawful_specs();
+        let n = cx.budget(60, 600);
+        for i in 0..n {
+            let opts = GenOpts { max_steps: 4, max_rows: 9, barriers: false, joins: false, globals: false, nonlocal_batches: false };
+            let mut p = gen_prog(&mut cx.rng, &opts);
+            if i % 3 == 0 { p.src.clear(); }
+            if !reorder_inert(&p) || matches!(reference(&p), RefOut::Panic) { continue; }
+            let spec = specs[i % specs.len()].clone();
+            cx.count("xsource:elementwise-over-lawful-user-source");
+            check_prog_x(cx, &p, &spec, Terminal::Collect, &[Mode::Seq, Mode::Par(1), Mode::Par(3)], &o);
+        }
+    }
+
     /* ---- collect_fail_fast: EVERY set of failing positions, sources of 0..maxlen rows ---- */
     let maxlen = size_for(cx, 4, 6);
     let templates: Vec<Vec<Step>> = vec![
